@@ -230,16 +230,22 @@ Qed.
 (* one group operation preserves the mirror property *)
 Theorem group_mirror_step g p g' : mirror g -> gstep g p = Ok g' -> mirror g'.
 Proof.
-  intros (Hdf & Hsig) Hp. destruct p as [arr sh|k v|k v|r]; cbn [gstep gstep_gen] in Hp.
+  intros (Hdf & Hsig) Hp. destruct p as [arr sh|k v|k v|r|d|d|c|a|f|b]; cbn [gstep gstep_gen] in Hp.
   - injection Hp as <-. unfold mirror. cbn [g_models g_dfs g_sigs]. rewrite !map_map. split; reflexivity.
-  - injection Hp as <-. unfold mirror. cbn [g_models g_dfs g_sigs]. rewrite !map_map.
-    split; [rewrite <- Hdf|rewrite <- Hsig]; apply map_ext; intros m; reflexivity.
-  - injection Hp as <-. unfold mirror. cbn [g_models g_dfs g_sigs]. rewrite !map_map.
-    split; [rewrite <- Hdf|rewrite <- Hsig]; apply map_ext; intros m; reflexivity.
+  - injection Hp as <-. unfold mirror. cbn [g_models g_dfs g_sigs]. destruct (g_shthr g); [|split; assumption].
+    rewrite !map_map. split; [rewrite <- Hdf|rewrite <- Hsig]; apply map_ext; intros m; reflexivity.
+  - injection Hp as <-. unfold mirror. cbn [g_models g_dfs g_sigs]. destruct (g_shbk g); [|split; assumption].
+    rewrite !map_map. split; [rewrite <- Hdf|rewrite <- Hsig]; apply map_ext; intros m; reflexivity.
   - destruct (g_models g) as [|m0 ms0] eqn:Em; [discriminate Hp|]. rewrite <- Em in Hp.
     destruct (mapM (fun m => step m (ORecompute r)) (g_models g)) as [ms|e] eqn:E; cbn [bind] in Hp; [|discriminate Hp].
     injection Hp as <-. destruct (mapM_recompute r _ _ E) as (Hs & _ & Hd & _).
     unfold mirror. cbn [g_models g_dfs g_sigs]. split; [exact Hd|]. rewrite Hs, Em. exact Hsig.
+  - injection Hp as <-. split; assumption.
+  - injection Hp as <-. split; assumption.
+  - injection Hp as <-. split; assumption.
+  - injection Hp as <-. split; assumption.
+  - injection Hp as <-. split; assumption.
+  - injection Hp as <-. split; assumption.
 Qed.
 
 Lemma grun_app st g l1 l2 : grun_gen st g (l1 ++ l2)%list = (do g1 <- grun_gen st g l1; grun_gen st g1 l2).
@@ -256,7 +262,7 @@ Proof.
     exact (IH g1 (group_mirror_step _ _ _ Hm E) Hr).
 Qed.
 
-(* after ANY history of group operations the models mirror df_features and sigs *)
+(* after ANY history of group operations (attribute assignments included) the models mirror df_features and sigs *)
 Theorem group_mirror a ops g : grun (construct_group a) ops = Ok g -> mirror g.
 Proof. apply group_mirror_run. split; reflexivity. Qed.
 
@@ -280,26 +286,14 @@ Proof.
     exists t, sg. repeat split; congruence.
 Qed.
 
-(* stored settings of the group = constructor settings with the edits applied, and every model holds them *)
-Definition models_current (g : group) : Prop := Forall (fun m => o_set m = g_set g) (g_models g).
-
-Lemma group_settings_step g p g' : models_current g -> gstep g p = Ok g' ->
-  g_set g' = gintended (g_set g) [p] /\ models_current g'.
+(* stored settings of the group = constructor settings with the item edits AND attribute assignments applied *)
+Lemma group_set_step g p g' : gstep g p = Ok g' -> g_set g' = gintended (g_set g) [p].
 Proof.
-  unfold models_current. intros Hc Hp. destruct p as [arr sh|k v|k v|r]; cbn [gstep gstep_gen] in Hp.
-  - injection Hp as <-. cbn [g_set g_models gintended]. split; [reflexivity|].
-    apply Forall_forall. intros m Hin. apply in_map_iff in Hin as (q & <- & _). reflexivity.
-  - injection Hp as <-. cbn [g_set g_models gintended]. split; [reflexivity|].
-    apply Forall_forall. intros m Hin. apply in_map_iff in Hin as (q & <- & _). reflexivity.
-  - injection Hp as <-. cbn [g_set g_models gintended]. split; [reflexivity|].
-    apply Forall_forall. intros m Hin. apply in_map_iff in Hin as (q & <- & _). reflexivity.
-  - destruct (g_models g) as [|m0 ms0] eqn:Em; [discriminate Hp|]. rewrite <- Em in Hp, Hc.
-    destruct (mapM (fun m => step m (ORecompute r)) (g_models g)) as [ms|e] eqn:E; cbn [bind] in Hp; [|discriminate Hp].
-    injection Hp as <-. destruct (mapM_recompute r _ _ E) as (_ & Hset & _ & _).
-    cbn [g_set g_models gintended]. split; [reflexivity|].
-    apply Forall_forall. intros m Hin.
-    assert (Hin' : In (o_set m) (map o_set ms)) by (apply in_map; exact Hin).
-    rewrite Hset in Hin'. apply in_map_iff in Hin' as (m' & <- & Hm'). rewrite Forall_forall in Hc. now apply Hc.
+  intros Hp. destruct p as [arr sh|k v|k v|r|d|d|c|a|f|b]; cbn [gstep gstep_gen] in Hp;
+    try (injection Hp as <-; reflexivity).
+  destruct (g_models g) as [|m0 ms0]; [discriminate Hp|].
+  destruct (mapM (fun m => step m (ORecompute r)) (m0 :: ms0)) as [ms|e]; cbn [bind] in Hp; [|discriminate Hp].
+  injection Hp as <-. reflexivity.
 Qed.
 
 Lemma gintended_app s l1 l2 : gintended s (l1 ++ l2)%list = gintended (gintended s l1) l2.
@@ -308,23 +302,82 @@ Proof.
   destruct p; cbn [app gintended]; apply IH.
 Qed.
 
-Theorem group_settings_run g ops g' : models_current g -> grun g ops = Ok g' ->
-  g_set g' = gintended (g_set g) ops /\ models_current g'.
+Theorem group_settings_run g ops g' : grun g ops = Ok g' -> g_set g' = gintended (g_set g) ops.
 Proof.
-  revert g; induction ops as [|p t IH]; intros g Hc Hr; cbn [grun grun_gen] in Hr.
-  - injection Hr as <-. split; [reflexivity|exact Hc].
+  revert g; induction ops as [|p t IH]; intros g Hr; cbn [grun grun_gen] in Hr.
+  - injection Hr as <-. reflexivity.
   - destruct (gstep g p) as [g1|e] eqn:E; cbn [bind] in Hr; [|discriminate Hr].
-    destruct (group_settings_step _ _ _ Hc E) as (Hs1 & Hc1).
-    destruct (IH g1 Hc1 Hr) as (Hs & Hc'). split; [|exact Hc'].
-    rewrite Hs, Hs1. change (p :: t) with ([p] ++ t)%list. now rewrite gintended_app.
+    rewrite (IH g1 Hr), (group_set_step _ _ _ E). change (p :: t) with ([p] ++ t)%list. now rewrite gintended_app.
 Qed.
 
 Theorem group_settings a ops g : grun (construct_group a) ops = Ok g ->
-  g_set g = gintended (g_set (construct_group a)) ops /\ models_current g.
-Proof. apply group_settings_run. constructor. Qed.
+  g_set g = gintended (g_set (construct_group a)) ops.
+Proof. apply group_settings_run. Qed.
 
-(* a group fit after ANY history: one model per position, each with the table of the CURRENT settings for
-   its position and its own signal; nothing of an earlier fit (other shape, other thresholds) survives *)
+(* every model holds the group's settings - and shares its dictionaries - from a fit until the user assigns
+   a new value to a settings attribute of the group (the models are rebuilt by the next fit only) *)
+Definition models_current (g : group) : Prop := Forall (fun m => o_set m = g_set g) (g_models g).
+Definition synced (g : group) : Prop := g_shthr g = true /\ g_shbk g = true /\ models_current g.
+
+Lemma group_synced_step g p g' : synced g -> no_assignment p = true -> gstep g p = Ok g' -> synced g'.
+Proof.
+  unfold synced, models_current. intros (Ht & Hb & Hc) Hna Hp.
+  destruct p as [arr sh|k v|k v|r|d|d|c|a|f|b]; try discriminate Hna; cbn [gstep gstep_gen] in Hp.
+  - injection Hp as <-. cbn [g_set g_models g_shthr g_shbk]. split; [reflexivity|]. split; [reflexivity|].
+    apply Forall_forall. intros m Hin. apply in_map_iff in Hin as (q & <- & _). reflexivity.
+  - injection Hp as <-. cbn [g_set g_models g_shthr g_shbk]. split; [exact Ht|]. split; [exact Hb|].
+    rewrite Ht. apply Forall_forall. intros m Hin. apply in_map_iff in Hin as (q & <- & Hq).
+    rewrite Forall_forall in Hc. unfold edit_model_thr, set_settings. cbn [o_set]. now rewrite (Hc q Hq).
+  - injection Hp as <-. cbn [g_set g_models g_shthr g_shbk]. split; [exact Ht|]. split; [exact Hb|].
+    rewrite Hb. apply Forall_forall. intros m Hin. apply in_map_iff in Hin as (q & <- & Hq).
+    rewrite Forall_forall in Hc. unfold edit_model_bk, set_settings. cbn [o_set]. now rewrite (Hc q Hq).
+  - destruct (g_models g) as [|m0 ms0] eqn:Em; [discriminate Hp|]. rewrite <- Em in Hp, Hc.
+    destruct (mapM (fun m => step m (ORecompute r)) (g_models g)) as [ms|e] eqn:E; cbn [bind] in Hp; [|discriminate Hp].
+    injection Hp as <-. destruct (mapM_recompute r _ _ E) as (_ & Hset & _ & _).
+    cbn [g_set g_models g_shthr g_shbk]. split; [exact Ht|]. split; [exact Hb|].
+    apply Forall_forall. intros m Hin.
+    assert (Hin' : In (o_set m) (map o_set ms)) by (apply in_map; exact Hin).
+    rewrite Hset in Hin'. apply in_map_iff in Hin' as (m' & <- & Hm'). rewrite Forall_forall in Hc. now apply Hc.
+Qed.
+
+Theorem group_synced_run g ops g' : synced g -> forallb no_assignment ops = true -> grun g ops = Ok g' -> synced g'.
+Proof.
+  revert g; induction ops as [|p t IH]; intros g Hs Hna Hr; cbn [grun grun_gen] in Hr.
+  - injection Hr as <-. exact Hs.
+  - cbn [forallb] in Hna. apply andb_prop in Hna as (Hp & Ht).
+    destruct (gstep g p) as [g1|e] eqn:E; cbn [bind] in Hr; [|discriminate Hr].
+    exact (IH g1 (group_synced_step _ _ _ Hs Hp E) Ht Hr).
+Qed.
+
+(* after ANY history, a fit followed by operations that assign no settings attribute (item edits, edge
+   recomputations, further fits): every model holds the group's current settings *)
+Theorem group_models_current_since_fit a ops arr sh rest g :
+  grun (construct_group a) (ops ++ GFit arr sh :: rest) = Ok g -> forallb no_assignment rest = true ->
+  models_current g.
+Proof.
+  intros Hr Hna. unfold grun in Hr. rewrite grun_app in Hr.
+  destruct (grun_gen gstep (construct_group a) ops) as [g1|e]; cbn [bind] in Hr; [|discriminate Hr].
+  cbn [grun_gen] in Hr. destruct (gstep g1 (GFit arr sh)) as [g2|e] eqn:E; cbn [bind] in Hr; [|discriminate Hr].
+  assert (Hs : synced g2).
+  { cbn [gstep gstep_gen] in E. injection E as <-. unfold synced, models_current. cbn [g_set g_models g_shthr g_shbk].
+    split; [reflexivity|]. split; [reflexivity|].
+    apply Forall_forall. intros m Hin. apply in_map_iff in Hin as (q & <- & _). reflexivity. }
+  exact (proj2 (proj2 (group_synced_run g2 rest g Hs Hna Hr))).
+Qed.
+
+(* the restriction is needed: an attribute assignment changes the group's setting only; the models of the
+   last fit keep theirs until the next fit *)
+Theorem group_assignment_leaves_models_behind :
+  exists g, grun (construct_group no_args) [GFit 1 (G2Rows 2); GSetCenter false] = Ok g /\ ~ models_current g /\ mirror g.
+Proof.
+  eexists. split; [vm_compute; reflexivity|]. split.
+  - intros Hc. inversion Hc as [|m l Hm Hl]. discriminate Hm.
+  - split; reflexivity.
+Qed.
+
+(* a group fit after ANY history (assignments included): one model per position, each with the table of the
+   CURRENT settings for its position and its own signal; nothing of an earlier fit (other shape, other
+   settings) survives *)
 Theorem group_fit_after_history a ops g arr sh g' :
   grun (construct_group a) ops = Ok g -> gstep g (GFit arr sh) = Ok g' ->
   let s := gintended (g_set (construct_group a)) ops in
@@ -333,7 +386,7 @@ Theorem group_fit_after_history a ops g arr sh g' :
   g_dfs g' = map (table_at s arr sh) (seq 0 (npos sh)) /\
   g_models g' = map (fun p => load_model s (cell_id arr p) (table_at s arr sh p)) (seq 0 (npos sh)).
 Proof.
-  intros Hr Hf. apply group_settings in Hr as (Hs & _). cbn [gstep gstep_gen] in Hf. injection Hf as <-.
+  intros Hr Hf. apply group_settings in Hr as Hs. cbn [gstep gstep_gen] in Hf. injection Hf as <-.
   cbn [g_set g_sigs g_dfs g_models]. rewrite Hs. repeat split.
 Qed.
 
